@@ -1,13 +1,22 @@
 (* C02 — every object has exactly one owner, and the back-pointers say so.
    Statements only; proofs in Proofs/C02Proofs.v over Model/Kernel.v.
-   Proved: the atomicity half at full strength — whatever public operation
-   fails (BadValueError, KeyError, IndexError, ValueError, TypeError), the
-   whole state, hence every container, containment slot, resource list and
-   back-pointer, is exactly what it was.
-   PARTIAL: the single-owner invariant itself (slot membership <-> eContainer /
-   eContainmentFeature, root lists <-> eResource, acyclicity) is not yet a
-   theorem; it is carried by the correspondence on the ownership projection
-   and by the forest oracle of harness/props/c02.py. *)
+   Proved:
+   * atomicity at full strength — whatever public operation fails
+     (BadValueError, KeyError, IndexError, ValueError, TypeError), the whole
+     state, hence every container, containment slot, resource list and
+     back-pointer, is exactly what it was;
+   * the resource half of the ownership invariant, for EVERY operation of the
+     kernel model and every history from the initial state: an object is
+     listed as a root at most once and in at most one resource, and it is
+     listed in resource r exactly when its eResource back-pointer names r
+     (container updates that take a root out of its resource, Resource.append
+     moving a root, delete(), ... included).  With C19 (eResource of any
+     object is its root's) this gives "every descendant reports its root's
+     resource".
+   PARTIAL: the containment half (slot membership <-> eContainer /
+   eContainmentFeature, acyclicity) is not yet a theorem; it is carried by the
+   correspondence on the ownership projection and by the forest oracle of
+   harness/props/c02.py. *)
 From Coq Require Import ZArith List Bool Arith.
 From PyecoreV Require Import Lib.PyBase Lib.PyList Model.Kernel Proofs.C02Proofs.
 Import ListNotations.
@@ -17,6 +26,16 @@ Theorem C02_failed_operation_changes_nothing_partial :
     atomic_op m o -> step m s o = ((Some e, s'), r) -> s' = s.
 Proof. exact failed_op_changes_nothing. Qed.
 Print Assumptions C02_failed_operation_changes_nothing_partial.
+
+Theorem C02_root_lists_and_eresource_agree_step :
+  forall m s o, res_ok s -> res_ok (next m s o).
+Proof. exact res_ok_step. Qed.
+Print Assumptions C02_root_lists_and_eresource_agree_step.
+
+Theorem C02_root_lists_and_eresource_agree_in_every_reachable_state :
+  forall m ops, res_ok (fold_left (next m) ops (init_state m)).
+Proof. exact res_ok_history. Qed.
+Print Assumptions C02_root_lists_and_eresource_agree_in_every_reachable_state.
 
 (* non-vacuity: a failing remove on a containment, and an accepted move between two owners *)
 Definition ex_mm : mm :=
